@@ -82,6 +82,8 @@ let () =
                   else fail step "corr" (Printf.sprintf "node n%d appeared during gc()" id))
               post_i;
             if ps.handles <> pp.handles then fail step "corr" "the handles changed during gc()";
+            if ps.gc <= pp.gc then
+              fail step "prop" (Printf.sprintf "gc_count did not advance over an explicit gc() (%d before, %d after)" pp.gc ps.gc);
             (* the return value *)
             (match split_ws res with
              | [ "collected"; x ] ->
